@@ -185,7 +185,13 @@ def run_py_wire(ck: Check, prop_file: str, want_decode: bool, n_quick=(120, 4), 
 
     ns, nv = n_quick if ck.quick else n_thorough
     cases: List[Tuple[sg.Schema, List[Any], str]] = []
-    for j in load_corpus(ck.prop):
+    if getattr(ck, "replay_file", None):
+        j = json.load(open(ck.replay_file))
+        if "schema" in j and "value" in j:
+            s_ = sg.schema_from_json(j["schema"])
+            cases.append((s_, [sg.value_from_json(s_.top, j["value"])], "replay:" + os.path.basename(ck.replay_file)))
+            ns, extra_cases, guard = 0, None, guard
+    for j in ([] if getattr(ck, "replay_file", None) else load_corpus(ck.prop)):
         s = sg.schema_from_json(j["schema"])
         vals = [sg.value_from_json(s.top, v) for v in j["values"]]
         cases.append((s, vals, "corpus:" + os.path.basename(j["_path"])))
@@ -193,7 +199,7 @@ def run_py_wire(ck: Check, prop_file: str, want_decode: bool, n_quick=(120, 4), 
     if extra_cases:
         cases.extend(extra_cases)
     cases.extend(gen_cases(ck, ns, nv, params_for))
-    if guard is not None:
+    if guard is not None and not getattr(ck, "replay_file", None):
         # separate small stream INSIDE the classes of the known findings
         def inside(i, rng):
             return sg.Params(enum_nonzero_first=1.0, max_fields=4)
